@@ -132,7 +132,6 @@ func runPush(ours uint32, theirs uint32, ops []string) string {
 		// counter shows the last queued message left.
 		time.Sleep(20 * time.Millisecond)
 	}
-	bs, br := p.BytesSent(), p.BytesReceived()
 	re.CloseWrite()
 	dch := make(chan struct{})
 	go func() { p.WaitForDisconnect(); close(dch) }()
@@ -144,6 +143,8 @@ func runPush(ours uint32, theirs uint32, ops []string) string {
 	if !waitCensusClean() {
 		note += " note=goroutine-leak"
 	}
+	// counters are bumped after the write returns: read them once every goroutine is gone
+	bs, br := p.BytesSent(), p.BytesReceived()
 	ms, _ := rd.snapshot()
 	var ws []string
 	recv := 0
